@@ -24,7 +24,8 @@ RULE = ('bex part: every (construction form | one- and two-argument index expres
         'hist part: one case = one initial configuration (typecode, shape, palette, alphabet); inner BFS over '
         'histories of in-place operators / indexed assignments / size changes through aliases A, B=A and copy C=+A; '
         'every transition replays its history prefix on fresh cvxopt objects; states are merged on the canonical key '
-        'of (model state, complete implementation state incl. alias/buffer-identity pattern)')
+        'of (model state, complete implementation state incl. alias/buffer-identity pattern); large configurations are '
+        'split into several cases by the residue class of the first action (complete, states merged within a case)')
 ASSUME = ['matrices.rst is the specification; where it is silent the model returns UNSPEC and nothing is compared: '
           'c/A, c%A, e**D and D**(1x1 matrix); % with complex operands; sign of % for operands of opposite sign; '
           '** outside the real domain and 0j**e; max/min of complex or empty matrices; mul/div of numbers only; '
@@ -40,15 +41,28 @@ ASSUME = ['matrices.rst is the specification; where it is silent the model retur
           'matrix object, validated against nrows/ncols/id at offsets 24/28/32 at the start of every case)',
           'numpy (from .cache/deps) is used only to build buffer-protocol arguments',
           'ASan flavour observes only accesses made by cvxopt\'s own C code']
-BOUNDS = {'quick': 'shapes {0..3}^2 x tc idz; one-arg get: ints -5..5 + 5 huge, all 1000 slices over {None,-4..4}^3, '
-                   'all lists and int-matrices of length<=3 over -4..4; two-arg get: 130^2 index pairs per matrix '
-                   '(18 ints, 48 slices, 31 lists, 31 int-matrices, 2 bad kinds); set: 128 one-arg and 34^2 two-arg '
-                   'index expressions x 20-28 right-hand sides; operators: all 48x48 matrix pairs x 6 operators + '
-                   '48 x 12 numbers x 6 x both orders; hist depth 3, 12 configurations; asan: 6 shapes and reduced '
-                   'index sets, hist depth 2',
-          'thorough': 'as quick with two-arg get over 294^2 index pairs, two-arg set over 67^2, lists/int-matrices of '
-                      'length<=3 everywhere, nested-list constructions from 11 block atoms; hist depth 3 on the full '
-                      'alphabet plus depth 4 on the core alphabet'}
+BOUNDS = {'quick': 'plain build: shapes {0..3}^2 x typecodes i,d,z (48 matrices); construction: numbers x 25 size x 5 tc '
+                   'arguments, sequences of length 0..6 (5 element-type patterns, list/tuple/range), dense and sparse '
+                   'sources x 22 sizes x 5 tc, 176 buffer objects (array, memoryview.cast, bytes, numpy of 10 dtypes in '
+                   'C/F/transposed/strided/negative-stride/0-size/3-D/0-D layouts), nested lists from 8 block atoms '
+                   '(all 1- and 2-block-column combinations of 0..2 blocks) x 3 sizes x 4 tc; one-argument get: ints '
+                   '-5..5 + {2^31-1, 2^31, 2^32, 2^32+1, 2^63-1, -2^32, -2^31-1} + 5 invalid kinds, all 1000 slices over '
+                   '{None,-4..4}^3, all 820 lists and 820 int-matrices of length <=3 over -4..4; two-argument get: '
+                   '130^2 index pairs per matrix (20 ints, 48 slices, 31 lists, 31 int-matrices); one-argument set: 129 '
+                   'indices x 22-28 right-hand sides; two-argument set: 33^2 index pairs x ~20 right-hand sides; '
+                   'operators + - * / % ** and in-place += -= *= /= %=: all 48x48 matrix pairs, 12 numbers in both '
+                   'orders, sparse operands for += -=; attributes/built-ins on 3-4 value variants, 134 size '
+                   'assignments; cvxopt.mul/div/max/min on all pairs, numbers, iterables and 1000 triples; '
+                   'sqrt/exp/log/cos/sin on 3 value variants.  hist: 6 configurations (tc x {2x2, 2x3}) x {full '
+                   'alphabet (168 actions) depth 2, core alphabet (84 actions) depth 3}.  asan build (interpreter '
+                   '~100x slower): 8 matrices (4 shapes x d,z), 45^2 index pairs for get, 13^2 x 11 for set, all '
+                   'buffers, 2 hist configurations at depth 2',
+          'thorough': 'plain build: as quick with two-argument get over 496^2 index pairs per matrix (23 ints, 252 '
+                      'slices, 137 lists, 84 int-matrices), two-argument set over 73^2 pairs x 28 right-hand sides, '
+                      'nested lists from 11 block atoms; hist: full alphabet depth 3 and core alphabet depth 4 on the 6 '
+                      'configurations.  asan build: 12 matrices (6 shapes x d,z), full one-argument index sets, 74^2 '
+                      'pairs for get, 33x13 pairs x 11 right-hand sides for set, 3 hist configurations with the full '
+                      'alphabet at depth 2'}
 
 TOL = 1e-12
 LARGE = [2 ** 31 - 1, 2 ** 31, 2 ** 32, 2 ** 32 + 1, 2 ** 63 - 1]
@@ -488,6 +502,10 @@ def rhs_values(tc, shape, reduced):
         out.append(('none', None))
         out.append(('str', 'ab'))
         out.append(('list-mixed', [1, 'a'][:max(n, 1)] if n <= 2 else [1, 'a'] + [0] * (n - 2)))
+    if reduced == 'asan':
+        keep = ('num-d', 'num-z', 'm11-' + tc, 'm11-z', 'mat-' + tc, 'mat-z', 'mat-rows+1-' + tc, 'list-d', 'list-long',
+                'sp-d', 'sp-z')
+        out = [(l, v) for l, v in out if l in keep]
     seen, res = set(), []
     for label, v in out:
         if isinstance(v, R.Dense) and v.is11:
@@ -635,7 +653,7 @@ def check_cons(c, form, mx, size, tc, n=None):
             if isinstance(col, list):
                 ops += [o for o in col if type(o).__name__ in ('matrix', 'spmatrix')]
     st = _sizetag(size, n)
-    pat = '%s:size=%s:tc=%s' % (form, st, tc if st != 'huge' else '*')
+    pat = '%s:size=%s:tc=%s' % (form, st, tc if st != 'huge' else 'any')
     return check_op(c, 'matrix', pat, {'x': describe(mx), 'size': describe(size), 'tc': tc},
                     lambda: R.construct(mx, size, tc), lambda: _call_matrix(ix, size, tc), ops, fresh=True)
 
@@ -1422,6 +1440,7 @@ def hist_apply(env, act, operands):
 def run_hist(case, c):
     tc, shape, pal, depth = case['tc'], tuple(case['shape']), case['pal'], case['depth']
     acts, operands = hist_alphabet(tc, shape, case['alphabet'])
+    split = case.get('split', [0, 1])
     mA0 = mdense(tc, shape, pal)
     cfg = 'tc=%s,shape=%dx%d' % (tc, shape[0], shape[1])
 
@@ -1459,6 +1478,8 @@ def run_hist(case, c):
         nxt = []
         for h in frontier:
             for ai, act in enumerate(acts):
+                if d == 0 and ai % split[1] != split[0]:
+                    continue                      # this configuration's BFS is split by the first action
                 env = replay(h)
                 pre = env.observe()
                 if (env.model_key(), pre) not in seen or seen[(env.model_key(), pre)] != h:
@@ -1547,14 +1568,14 @@ def cases(tier, seed, flavour):
         mats = [(tc, list(s)) for s in ((0, 2), (1, 1), (2, 3), (3, 2)) for tc in 'dz']
         shl = [[0, 2], [1, 1], [2, 3], [3, 2]]
     elif lvl == 'A1':
-        mats = [(tc, list(s)) for s in ASAN_SHAPES for tc in TCS]
+        mats = [(tc, list(s)) for s in ASAN_SHAPES for tc in 'dz']
         shl = [list(s) for s in ASAN_SHAPES]
     else:
         mats = [(tc, list(s)) for s in SHAPES for tc in TCS]
         shl = [list(s) for s in SHAPES]
     # ---- construction
     yield {'part': 'cons', 'form': 'number', 'pal': pal}
-    for n in ((0, 3) if lvl == 'A0' else ((0, 2, 6) if lvl == 'A1' else range(7))):
+    for n in ((3,) if lvl == 'A0' else ((0, 2, 6) if lvl == 'A1' else range(7))):
         yield {'part': 'cons', 'form': 'seq', 'n': n, 'pal': pal}
     for s in shl:
         yield {'part': 'cons', 'form': 'matrix', 'shape': s, 'pal': pal}
@@ -1565,7 +1586,7 @@ def cases(tier, seed, flavour):
     ntier = 'thorough' if lvl == 'T' else 'quick'
     na = 11 if ntier == 'thorough' else 8
     ncols = 1 + na + na * na
-    step = {'A0': 12, 'A1': 4}.get(lvl, 1)
+    step = {'A0': 24, 'A1': 4}.get(lvl, 1)
     for first in range(0, ncols, step):
         yield {'part': 'cons', 'form': 'nested', 'tier': ntier, 'first': first, 'pal': pal}
     # ---- attributes, methods, built-ins
@@ -1586,15 +1607,15 @@ def cases(tier, seed, flavour):
     s1 = ['b-' + k for k in KINDS] if lvl == 'A0' else ['s1-' + k for k in KINDS]
     for tc, s in mats:
         for nm in s1:
-            yield {'part': 'set1', 'tc': tc, 'shape': s, 'pal': pal, 'set': nm, 'reduced': lvl == 'A0'}
+            yield {'part': 'set1', 'tc': tc, 'shape': s, 'pal': pal, 'set': nm, 'reduced': 'asan' if lvl[0] == 'A' else False}
     # ---- two-argument assignment
     pre = {'A0': 'sa-', 'A1': 'sq-', 'Q': 'sq-', 'T': 'st-'}[lvl]
-    ssets = [pre + k for k in KINDS]
+    rsets = [pre + k for k in KINDS]
+    csets = ['sa-' + k for k in KINDS] if lvl == 'A1' else rsets
     for tc, s in mats:
-        if lvl == 'A1' and tc == 'i':
-            continue
-        for nm in ssets:
-            yield {'part': 'set2', 'tc': tc, 'shape': s, 'pal': pal, 'rowset': nm, 'colsets': ssets, 'reduced': lvl != 'T'}
+        for nm in rsets:
+            yield {'part': 'set2', 'tc': tc, 'shape': s, 'pal': pal, 'rowset': nm, 'colsets': csets,
+                   'reduced': 'asan' if lvl[0] == 'A' else (lvl != 'T')}
     # ---- operators, in-place operators, functions
     for tc, s in mats:
         yield {'part': 'arith', 'tc': tc, 'shape': s, 'pal': pal, 'shapes': shl}
@@ -1607,12 +1628,18 @@ def cases(tier, seed, flavour):
     # ---- hist: one case = one initial configuration, inner BFS
     if lvl == 'A0':
         configs = [('d', [2, 2]), ('z', [2, 3])]
+    elif lvl == 'A1':
+        configs = [('i', [2, 2]), ('d', [2, 3]), ('z', [2, 2])]
     else:
         configs = [(tc, shape) for shape in ([2, 2], [2, 3]) for tc in TCS]
     plans = {'A0': [('core', 2)], 'A1': [('full', 2)], 'Q': [('full', 2), ('core', 3)], 'T': [('full', 3), ('core', 4)]}[lvl]
+    nsplit = {'T': {'i': 1, 'd': 3, 'z': 6}, 'A1': {'i': 1, 'd': 2, 'z': 4}}.get(lvl, {})
     for tc, shape in configs:
         for alphabet, depth in plans:
-            yield {'part': 'hist', 'tc': tc, 'shape': shape, 'pal': pal, 'depth': depth, 'alphabet': alphabet}
+            ns = nsplit.get(tc, 1)
+            for k in range(ns):
+                yield {'part': 'hist', 'tc': tc, 'shape': shape, 'pal': pal, 'depth': depth, 'alphabet': alphabet,
+                       'split': [k, ns]}
 
 
 def crash_key(case):
